@@ -122,6 +122,9 @@ func (tr *translator) expr(e ast.Expr) (ex, error) {
 			if _, isIface := vi.typ.(TIface); isIface {
 				return ex{}, tr.errf(e, "interface-typed variable %s may only be used as the receiver of a niladic method call", x.Name)
 			}
+			if vi.byRef {
+				return ex{}, tr.errf(e, "pointer parameter %s may only be indexed, sliced, measured with len or passed on by reference", x.Name)
+			}
 			return ex{s: vi.coq, t: vi.typ}, nil
 		}
 		if x.Name == "nil" {
@@ -178,7 +181,7 @@ func (tr *translator) expr(e ast.Expr) (ex, error) {
 		}
 		return r, nil
 	case *ast.IndexExpr:
-		a, err := tr.expr(x.X)
+		a, err := tr.baseExpr(x.X)
 		if err != nil {
 			return ex{}, err
 		}
@@ -214,7 +217,7 @@ func (tr *translator) expr(e ast.Expr) (ex, error) {
 		if x.Slice3 {
 			return ex{}, tr.errf(e, "3-index slice expression")
 		}
-		a, err := tr.expr(x.X)
+		a, err := tr.baseExpr(x.X)
 		if err != nil {
 			return ex{}, err
 		}
@@ -295,6 +298,17 @@ func (tr *translator) expr(e ast.Expr) (ex, error) {
 		return ex{}, tr.errf(e, "composite literal of type %s", t)
 	}
 	return ex{}, tr.errf(e, "unsupported expression %T", e)
+}
+
+// baseExpr: the operand of an index / slice / len expression; a pointer-to-array parameter is dereferenced
+// automatically there (Go: p[i] is (*p)[i]).
+func (tr *translator) baseExpr(e ast.Expr) (ex, error) {
+	if id, ok := stripParens(e).(*ast.Ident); ok {
+		if vi := tr.cur.sc.lookup(id.Name); vi != nil && vi.byRef {
+			return ex{s: vi.coq, t: vi.typ}, nil
+		}
+	}
+	return tr.expr(e)
 }
 
 // qualified flattens pkg.A.B (pkg an import name that is not shadowed) to "importpath.A.B".
@@ -607,6 +621,9 @@ func (tr *translator) call(x *ast.CallExpr) (ex, bool, error) {
 	if x.Ellipsis.IsValid() {
 		return ex{}, false, tr.errf(x, "variadic call with ...")
 	}
+	if len(tg.refOut) > 0 {
+		return ex{}, false, tr.errf(x, "call of %s, which writes through a pointer parameter, is only supported as a statement", key)
+	}
 	var argExprs []ast.Expr
 	var args []ex
 	if recv != nil {
@@ -618,6 +635,16 @@ func (tr *translator) call(x *ast.CallExpr) (ex, bool, error) {
 		argExprs = append(argExprs, recv)
 	}
 	for _, a := range x.Args {
+		if i := len(args); i < len(tg.paramRef) && tg.paramRef[i] {
+			// read-only pointer-to-array parameter: pass the array value
+			vi, err := tr.refArg(a)
+			if err != nil {
+				return ex{}, false, err
+			}
+			args = append(args, ex{s: vi.coq, t: vi.typ})
+			argExprs = append(argExprs, a)
+			continue
+		}
 		v, err := tr.expr(a)
 		if err != nil {
 			return ex{}, false, err
@@ -717,7 +744,7 @@ func (tr *translator) builtin(x *ast.CallExpr, name string) (ex, error) {
 		if len(x.Args) != 1 {
 			return ex{}, tr.errf(x, "len: bad arity")
 		}
-		a, err := tr.expr(x.Args[0])
+		a, err := tr.baseExpr(x.Args[0])
 		if err != nil {
 			return ex{}, err
 		}
